@@ -81,6 +81,9 @@ ASSUMPTIONS = ["orders are complete over the instance's alternatives with non-em
                "distinct orders; the objective is unweighted (one unit per distinct order / per alternative); fewer than "
                "20 alternatives (quantifier of C12)"]
 TIMEOUT_S = 60.0
+# the ILP functions call CBC with model.threads = -1; an answer that is not reproduced when the same case is run again
+# alone is marked kind = "not-reproducible" by the check driver (see known finding KF-C12-cbc-nondeterminism)
+RERUN_FAILURES = True
 CHUNK = 2
 
 DT = {0: "soc", 2: "toc"}
